@@ -418,7 +418,7 @@ func runE2Comparators(p *Prog, r *Report) {
 			r.Add("E2.comparator", c.name, "less", p.Pos(c.pos), Undecided, detail, true)
 		}
 	}
-	r.ExpectMin("E2.comparators", len(cmps), 8)
+	r.ExpectMin("E2.comparators", len(cmps), 6)
 	r.Clauses = append(r.Clauses, "E2 every Less method and every sort.Slice/SliceStable closure is a strict weak order (irreflexive, asymmetric, transitive, incomparability transitive), decided by enumerating all weak orderings of three abstract elements per key")
 }
 
